@@ -229,6 +229,129 @@ Definition pub_ok (self : node) (listing : list node) (seen : list ev)
 Definition reg_ok (self : node) (k : Z) (n : node) : bool :=
   Z.eqb k (nid self) && node_eqb n self && nalive n.
 
+
+(* ------------------------------------------------------------------ the scripted life *)
+(* The property for a life on the scripted key space, stated WITHOUT reference to the order in which
+   an implementation issues its requests: whatever it has been shown - a listing evaluated at
+   position r, watch events up to position r - every list it publishes is the membership at the
+   HIGHEST position it has been shown so far (never an older one again), with the node itself in
+   it; and a watch it opens loses nothing: it starts no later than right after that position.
+   "Position r" = the key space after its first r mutations (revision r+1). *)
+Definition conform_mutb (mu : mut) : bool := match mu with MPut n => nalive n | MDel _ => true end.
+Definition conform_mut (mu : mut) : Prop := match mu with MPut n => nalive n = true | MDel _ => True end.
+
+(* member mode: the key space plus the node's own record; client mode: the node is not a member, the
+   statement is about all OTHER nodes (whatever sits under the client's own id is left out on both
+   sides) *)
+Definition membership (mode : bool) (self : node) (log : list mut) (r : nat) : alist node :=
+  if mode then aset (nid self) self (snap log r) else adel (nid self) (snap log r).
+
+Definition others (self : node) (ms : list member) : list member :=
+  filter (fun m => negb (Z.eqb (mid m) (nid self))) ms.
+
+Definition boot_pub_ok (mode : bool) (self : node) (log : list mut) (r : nat)
+           (ms : list member) (q : answers) : bool :=
+  (if forallb conform_mutb (firstn r log)
+   then if mode
+        then perm_eqb member_eqb ms (publish (membership true self log r))
+             && existsb (member_eqb (member_of self)) ms
+        else perm_eqb member_eqb (others self ms) (publish (membership false self log r))
+   else true)
+  && index_ok ms q.
+
+Record bmon := BM {
+  bm_log : list mut;
+  bm_compact : nat;
+  bm_get : option nat;      (* a listing evaluated at this position is in flight *)
+  bm_watch : option nat;    (* a watch is registered; next mutation it delivers *)
+  bm_seen : option nat      (* highest position shown to the provider (None: nothing yet) *)
+}.
+
+Definition bmon0 : bmon := BM [] 0 None None None.
+
+Definition seen_max (o : option nat) (r : nat) : nat := match o with Some s => Nat.max s r | None => r end.
+
+(* one action and what the implementation showed for it; None = the property is violated *)
+Definition bmon_step (mode : bool) (self : node) (m : bmon) (a : act) (x : bobs) : option bmon :=
+  match a, x with
+  | AMut mu, XNone => Some (BM (bm_log m ++ [mu]) (bm_compact m) (bm_get m) (bm_watch m) (bm_seen m))
+  | AGetEval, XAck => Some (BM (bm_log m) (bm_compact m) (Some (length (bm_log m))) (bm_watch m) (bm_seen m))
+  | AGetEval, XNone => Some m
+  | AGetResp, XStart regs wired ms q =>
+      match bm_get m with
+      | Some r =>
+          let r' := seen_max (bm_seen m) r in
+          if (if mode then negb (is_nil regs) && forallb (fun kn => reg_ok self (fst kn) (snd kn)) regs
+              else is_nil regs)
+             && wired && boot_pub_ok mode self (bm_log m) r' ms q
+          then Some (BM (bm_log m) (bm_compact m) None (bm_watch m) (Some r'))
+          else None
+      | None => None
+      end
+  | AGetResp, XPub ms q =>
+      match bm_get m with
+      | Some r =>
+          let r' := seen_max (bm_seen m) r in
+          if boot_pub_ok mode self (bm_log m) r' ms q
+          then Some (BM (bm_log m) (bm_compact m) None (bm_watch m) (Some r'))
+          else None
+      | None => None
+      end
+  | AGetResp, XNone => match bm_get m with None => Some m | Some _ => None end
+  | AGetFail, (XFail | XAck) => Some (BM (bm_log m) (bm_compact m) None (bm_watch m) (bm_seen m))
+  | AGetFail, XNone => Some m
+  | AWatch, XWReg start =>
+      let i := Z.to_nat (start - 2) in
+      (* it exists (not in the future), and nothing is lost: it starts no later than right after what
+         the provider has been shown *)
+      if Z.leb 2 start && Nat.leb i (length (bm_log m))
+         && match bm_seen m with Some sn => Nat.leb i sn | None => true end
+      then Some (BM (bm_log m) (bm_compact m) (bm_get m) (Some i) (bm_seen m))
+      else None
+  | AWatch, XWComp => Some (BM (bm_log m) (bm_compact m) (bm_get m) None (bm_seen m))
+  | AWatch, XNone => Some m
+  | ADeliver n, XPub ms q =>
+      match bm_watch m with
+      | Some i =>
+          let k := Nat.min (Z.to_nat n) (length (bm_log m) - i) in
+          let r' := seen_max (bm_seen m) (i + k) in
+          if negb (Nat.eqb k 0) && boot_pub_ok mode self (bm_log m) r' ms q
+          then Some (BM (bm_log m) (bm_compact m) (bm_get m) (Some (i + k)%nat) (Some r'))
+          else None
+      | None => None
+      end
+  | ADeliver n, XNone =>
+      match bm_watch m with
+      | Some i => if Nat.eqb (Nat.min (Z.to_nat n) (length (bm_log m) - i)) 0 then Some m else None
+      | None => Some m
+      end
+  | AWatchFail _, XWatch _ _ =>
+      match bm_watch m with
+      | Some _ => Some (BM (bm_log m) (bm_compact m) (bm_get m) None (bm_seen m))
+      | None => None
+      end
+  | AWatchFail _, XNone => match bm_watch m with None => Some m | Some _ => None end
+  | ACompact, XNone => Some (BM (bm_log m) (length (bm_log m)) (bm_get m) (bm_watch m) (bm_seen m))
+  | AShutdown, XDown k cancelled => if Z.eqb k (nid self) && cancelled then Some m else None
+  | AShutdown, XNone => Some m
+  | _, _ => None
+  end.
+
+Fixpoint boot_monitor (mode : bool) (self : node) (m : bmon) (acts : list act) (xs : list bobs) : bool :=
+  match acts, xs with
+  | [], [] => true
+  | a :: ar, x :: xr =>
+      match bmon_step mode self m a x with
+      | Some m' => boot_monitor mode self m' ar xr
+      | None => false
+      end
+  | _, _ => false
+  end.
+
+(* the list last handed to the Cluster during a scripted life *)
+Definition boot_last_pub (dir : list member) (xs : list bobs) : list member :=
+  fold_left (fun d x => match x with XStart _ _ ms _ | XPub ms _ => ms | _ => d end) xs dir.
+
 Record mprov := MP { m_self : node; m_listing : list node; m_seen : list ev; m_watches : Z; m_err : bool }.
 
 (* monitor state: the running provider (if any) and the member list last handed to the Cluster *)
@@ -317,6 +440,14 @@ Fixpoint monitor_from (st : mstate_t) (ops : list op) (bs : list obs) : bool :=
           match b with
           | BStress ok => ok && monitor_from st r br
           | _ => false
+          end
+      | OBoot self mode acts =>
+          match Z.ltb (naddr self) (-1), b with
+          | true, BFail => monitor_from (None, dir) r br
+          | false, BBoot xs =>
+              boot_monitor mode (mk_self self) bmon0 acts xs
+              && monitor_from (None, boot_last_pub dir xs) r br
+          | _, _ => false
           end
       end
   | _, _ => false
